@@ -170,7 +170,7 @@ def run_real(scn, choose):
         sched.event("lsn-return", me.name)
 
     class Adapter(DataProvider):
-        def initialize(self, params, config_file):
+        def initialize(self, params, config_file=None):
             sched.event("adapter-sync", "initialize")
 
         def set_listener(self, listener):
